@@ -22,8 +22,11 @@ static bool float_bits_to_half_bits(uint32_t f, uint16_t* h) {
   *h = (uint16_t)(sign | (full >> drop)); return true;
 }
 
+static bool item_block_ok(const cbor_item_t* it) { const BlockInfo* b = sa_find(it); return b && b->size >= sizeof(cbor_item_t); }
+
 bool impl_to_mv(const cbor_item_t* it, MV& out, std::string& why, int depth) {
   if (it == nullptr) { why = "NULL item inside tree"; return false; }
+  if (!item_block_ok(it)) { why = "tree contains a pointer that is not a live item block of the installed allocator"; return false; }
   if (depth > 100000) { why = "tree too deep"; return false; }
   out = MV();
   switch (cbor_typeof(it)) {
@@ -89,6 +92,7 @@ bool impl_to_mv(const cbor_item_t* it, MV& out, std::string& why, int depth) {
 static inline std::string P(const std::string& path, const std::string& suffix) { return path.size() > 160 ? path : path + suffix; }
 bool impl_equals(const cbor_item_t* it, const MV& v, std::string& why, const std::string& path) {
   if (!it) { why = path + ": NULL item"; return false; }
+  if (!item_block_ok(it)) { why = path + ": pointer is not a live item block of the installed allocator (dangling or wild)"; return false; }
   auto bad = [&](const std::string& m) { why = path + ": " + m; return false; };
   switch (v.kind) {
     case MK_UINT: case MK_NEGINT:
